@@ -370,6 +370,13 @@ class SchemaValidator:
     def validate_interfaces(self, type_: ObjectType) -> None:
         imlemented_types = set()  # type: Set[str]
         for interface in type_.interfaces:
+            if not isinstance(interface, InterfaceType):
+                self.add_error(
+                    'Type "%s" can only implement interface types but got "%s"'
+                    % (type_, interface)
+                )
+                continue
+
             # TODO: This could be automatically fixed.
             if interface.name in imlemented_types:
                 self.add_error(
